@@ -113,7 +113,7 @@ type Pub struct {
 	ID    peer.ID
 	Pub   *ipnisync.Publisher
 	Addrs []multiaddr.Multiaddr
-	Plain bool // reached in plain-HTTP mode (own http server) rather than libp2p-HTTP discovery
+	Plain bool      // reached in plain-HTTP mode (own http server) rather than libp2p-HTTP discovery
 	Host  host.Host // libp2p stream host of the publisher (stream transport only)
 
 	mu     sync.Mutex
